@@ -144,3 +144,39 @@ def items():                                 # noqa: F811
             R.contracts[con.name] = con
             out.append(('src/cffi/cparser.py', R, con.function, con))
     return out
+
+
+# ---------------------------------------------------------------------------------------------------------------
+# Parser._declare itself: a name made with '...' (from any of its callers: typedef, struct tag, ...) is an error of the
+# cdef, not an internal error
+
+def _mk_declare_dots(name):
+    class K(PyContract):
+        pass
+    K.name = 'cparser:Parser._declare#%s' % name
+    K.function = 'Parser._declare'
+    K.allowed = ALLOWED
+
+    def setup(self, ex):
+        this = PObj('Parser', _declarations={}, _included_declarations=set(), _options={})
+        return {'self': this, 'name': name, 'obj': PObj('Type'), 'included': False, 'quals': 0}, []
+
+    def post(self, ex, args, kind, value, st):
+        dots = '__dotdotdot__' in name.split()
+        if kind == 'raise':
+            return [('only a cffi error class may leave', z3.BoolVal(value.cls in ALLOWED)), ("refused only for '...'", z3.BoolVal(dots))]
+        return [("a name made with '...' is not declared", z3.BoolVal(not dots))]
+    K.setup, K.post = setup, post
+    return K()
+
+
+_items1 = items
+
+
+def items():                                 # noqa: F811
+    out = _items1()
+    for nm in ('typedef __dotdotdot__', 'struct __dotdotdot__', 'typedef foo_t', 'variable __dotdotdot__'):
+        con = _mk_declare_dots(nm)
+        R.contracts[con.name] = con
+        out.append(('src/cffi/cparser.py', R, con.function, con))
+    return out
